@@ -532,6 +532,10 @@ class Engine:
     c = self.truthy(st, self.ev(node.test, st))
     if st.spec and not isinstance(c, bool):
       a, b = self.ev(node.body, st), self.ev(node.orelse, st)
+      if isinstance(a, Opt) and not isinstance(b, Opt):
+        a = self.need_int(st, a)
+      if isinstance(b, Opt) and not isinstance(a, Opt):
+        b = self.need_int(st, b)
       return self.ite(c, a, b)
     return self.ev(node.body if self.choose(st, c) else node.orelse, st)
 
@@ -1902,6 +1906,9 @@ class Engine:
                   props=c.total_props if c.total else None, note=r.info)
       return
     covered.add("return")
+    if c.return_hints:
+      ov = {"result": result}
+      self.process_hints(st, c.return_hints, ov, f"{c.qual}/return", 0)
     # normal return: exact raise conditions must be false
     for exc, cond in raise_conds.items():
       self.emit(st, "raise-required", f"{c.qual}/returns-only-when-not:{c.raises[exc].text}", self.not_(cond),
